@@ -248,6 +248,10 @@ def protocols(draw: Any) -> dict[str, Any]:
             if s2 != s:
                 msgs.append((s2, r2, t))
                 break
+    if n_parties == 3 and draw(st.integers(0, 2)) == 0:
+        # the same sender sends the same message type to two different recipients (named class)
+        t = draw(st.sampled_from(types))
+        msgs = [m for m in msgs if m[2] != t] + [("A", "B", t), ("A", "C", t)]
     rules = []
     subs = ["s1", "s2"][: draw(st.integers(0, 2))]
     later: list[str] = []
@@ -393,9 +397,20 @@ def check_case(case: dict[str, Any], ctx: Any = None) -> list[str]:
                 tag = "[known:skips-open-group] "
                 if ctx is not None:
                     ctx.count("known:skips-open-group")
+            elif got < want and all(any(g[0] == w[0] and g[2] == w[2] and g[1] != w[1] for g in got) for w in want - got):
+                # known finding C19/merged-recipients: options are keyed by (sender, message type); the same message
+                # type sent by the same party to another recipient is merged into the first one found
+                tag = "[known:merged-recipients] "
+                if ctx is not None:
+                    ctx.count("known:merged-recipients")
             msgs.append(f"{tag}history {h}: forecast offers {sorted(got)}, the grammar allows {sorted(want)} next")
         comp = len(pred.complete_trees) > 0
-        if h and comp != nullable(r):
+        if not h and nullable(r) and not comp:
+            # known finding C19/empty-history: predict() never evaluates completeness for the empty history
+            msgs.append(f"[known:empty-history] history []: reported incomplete, but the empty interaction is a full interaction")
+            if ctx is not None:
+                ctx.count("known:empty-history")
+        elif comp != nullable(r):
             msgs.append(f"history {h}: reported {'complete' if comp else 'incomplete'}, but it is {'a full' if nullable(r) else 'not a full'} interaction")
         if ctx is not None:
             ctx.case({"s": text, "h": h}, len(h) >= 2, (f"len={len(h)}", "complete" if nullable(r) else "open"),
@@ -423,7 +438,7 @@ def check_case(case: dict[str, Any], ctx: Any = None) -> list[str]:
     if ctx is not None:
         ctx.count("specs")
         ctx.count("histories", visited)
-    return msgs[:4]
+    return ([m for m in msgs if not m.startswith("[known:")] + [m for m in msgs if m.startswith("[known:")])[:6]
 
 
 def run_shard(ctx: Any) -> None:
@@ -441,7 +456,10 @@ def run_shard(ctx: Any) -> None:
 
 
 def classify(case: dict[str, Any], msgs: list[str]) -> Any:
-    return "skips-open-group" if msgs and all(m.startswith("[known:skips-open-group]") for m in msgs) else None
+    keys = {m[len("[known:"):m.index("]")] for m in msgs if m.startswith("[known:")}
+    if msgs and all(m.startswith("[known:") for m in msgs) and len(keys) == 1:
+        return keys.pop()
+    return None
 
 
 def replay(case: dict[str, Any]) -> list[str]:
